@@ -21,6 +21,7 @@ mod io;
 mod kernel;
 mod oracle;
 mod refdec;
+mod refxz;
 mod report;
 
 use report::Report;
@@ -202,7 +203,7 @@ fn main() {
         }
         "total" => {
             let mut rep = Report::new("total");
-            d_total::run(&prop, seed, a.num("from", 0), a.num("count", 20000), a.get("trace"), &mut rep);
+            d_total::run(&prop, seed, a.num("from", 0), a.num("count", 20000), a.get("trace"), a.get("journal"), &mut rep);
             finish(rep, &a);
         }
         "xztrace" => {
